@@ -55,6 +55,14 @@ m = {
                            "against the specification (batch NDJSON)"},
         {"name": "harness", "path": "/verif/harness", "serves_properties": [c["property_id"] for c in checks],
          "kind_free_text": "python drivers that run the real library, encode observations, call TLC"},
+        {"name": "apalache-inductive", "path": "/verif/spec/apalache", "serves_properties": ["C12"],
+         "kind_free_text": "Apalache discharges an inductive invariant of the bin search over all integers "
+                           "(harness/props/c12_apalache.py, part of ./check C12); TLC cross-checks the typed step "
+                           "against ClassifyOps!BSStep"},
+        {"name": "extras", "path": "/verif/harness/props/x01.py", "serves_properties": [],
+         "kind_free_text": "./check X01: specification coverage beyond the listed properties (bump, zonal.apply, "
+                           "suggest_zonal_canvas, lnglat_to_meters, summarize_terrain); evidence_extras/X01.json; "
+                           "decides no listed property"},
     ],
     "checks": checks,
     "not_applicable": na,
